@@ -17,13 +17,13 @@ namespace Osmium.SrcTie.Utf8T
 open Osmium.Generated Osmium.CxxSem Osmium.Conv Osmium.Cursor Osmium.SrcTie.Coord
 open Src.StringUtil
 
-theorem seqlen_table : ∀ n : Fin 256, utf8_sequence_length ((n.val : Nat) : Int) = ((Utf8.seqLen n.val : Nat) : Int) ∧
+theorem src_tie_utf8_seqlen_table : ∀ n : Fin 256, utf8_sequence_length ((n.val : Nat) : Int) = ((Utf8.seqLen n.val : Nat) : Int) ∧
     utf8_sequence_length_defined ((n.val : Nat) : Int) = true := by decide +kernel
 
 /-- `utf8_sequence_length` = `Utf8.seqLen` on every byte value -/
 theorem src_tie_utf8_sequence_length (n : Nat) (h : n < 256) :
     utf8_sequence_length (n : Int) = ((Utf8.seqLen n : Nat) : Int) ∧ utf8_sequence_length_defined (n : Int) = true :=
-  seqlen_table ⟨n, h⟩
+  src_tie_utf8_seqlen_table ⟨n, h⟩
 
 /-- the byte `k` positions behind the cursor, as a number -/
 def bt (s : List UInt8) (i k : Nat) : Nat := (peek (s.drop (i + k))).toNat
@@ -109,7 +109,7 @@ structure Setup (s t : List UInt8) (i : Nat) : Prop where
   hcp : band 255 ((bt s i 0 : Nat) : Int) = ((bt s i 0 : Nat) : Int)
   hin0 : inB (s ++ 0 :: t) (i : Int) = true
 
-theorem setup (s t : List UInt8) (i : Nat) (hi : i ≤ s.length) : Setup s t i :=
+theorem src_tie_utf8_setup (s t : List UInt8) (i : Nat) (hi : i ≤ s.length) : Setup s t i :=
   ⟨hi, List.length_drop, rd_drop s i 0 (by omega), (src_tie_utf8_sequence_length _ (bt_lt s i 0)).1,
    (src_tie_utf8_sequence_length _ (bt_lt s i 0)).2, hcp_byte _ (bt_lt s i 0), inB_cbuf s t i hi⟩
 
@@ -121,7 +121,7 @@ def Tie (s t : List UInt8) (i : Nat) : Prop :=
 
 /-- invalid first byte -/
 theorem src_tie_next_utf8_invalid (s t : List UInt8) (i : Nat) (hi : i ≤ s.length) (hL : Utf8.seqLen (bt s i 0) = 0) : Tie s t i := by
-  obtain ⟨hi, hlen, h0, hseq, hseqd, hcp, hin0⟩ := setup s t i hi
+  obtain ⟨hi, hlen, h0, hseq, hseqd, hcp, hin0⟩ := src_tie_utf8_setup s t i hi
   unfold Tie Utf8.next
   simp only [h0, hL, if_true]
   refine ⟨?_, ?_, by simp⟩
@@ -137,7 +137,7 @@ theorem src_tie_next_utf8_invalid (s t : List UInt8) (i : Nat) (hi : i ≤ s.len
 /-- truncated sequence: the distance check throws before any continuation byte is read -/
 theorem src_tie_next_utf8_short (s t : List UInt8) (i k : Nat) (hi : i ≤ s.length) (hL : Utf8.seqLen (bt s i 0) = k) (hk : 0 < k)
     (hshort : s.length - i < k) : Tie s t i := by
-  obtain ⟨hi, hlen, h0, hseq, hseqd, hcp, hin0⟩ := setup s t i hi
+  obtain ⟨hi, hlen, h0, hseq, hseqd, hcp, hin0⟩ := src_tie_utf8_setup s t i hi
   unfold Tie Utf8.next
   have hk0 : ¬ k = 0 := by omega
   simp only [h0, hL, hlen, hk0, if_false, hshort, if_true]
@@ -155,7 +155,7 @@ theorem src_tie_next_utf8_short (s t : List UInt8) (i k : Nat) (hi : i ≤ s.len
 theorem src_tie_next_utf8_len1_val (s t : List UInt8) (i : Nat) (hi : i ≤ s.length) (hL : Utf8.seqLen (bt s i 0) = 1)
     (hlong : ¬ s.length - i < 1) :
     next_utf8_codepoint (s ++ 0 :: t) i s.length = utfOut i (Utf8.next (s.drop i)) ∧ Utf8.next (s.drop i) ≠ .error .oob := by
-  obtain ⟨hi, hlen, h0, hseq, hseqd, hcp, hin0⟩ := setup s t i hi
+  obtain ⟨hi, hlen, h0, hseq, hseqd, hcp, hin0⟩ := src_tie_utf8_setup s t i hi
   have hb0 := bt_lt s i 0; have hb1 := bt_lt s i 1; have hb2 := bt_lt s i 2; have hb3 := bt_lt s i 3
   unfold Utf8.next
   simp (disch := omega) only [h0, hL, hlen, Nat.reduceEqDiff, if_false, hlong, rd_drop s i, if_true]
@@ -171,7 +171,7 @@ theorem src_tie_next_utf8_len1_val (s t : List UInt8) (i : Nat) (hi : i ≤ s.le
 theorem src_tie_next_utf8_len1_def (s t : List UInt8) (i : Nat) (hi : i ≤ s.length) (hL : Utf8.seqLen (bt s i 0) = 1)
     (hlong : ¬ s.length - i < 1) :
     next_utf8_codepoint_defined (s ++ 0 :: t) i s.length = true := by
-  obtain ⟨hi, hlen, h0, hseq, hseqd, hcp, hin0⟩ := setup s t i hi
+  obtain ⟨hi, hlen, h0, hseq, hseqd, hcp, hin0⟩ := src_tie_utf8_setup s t i hi
   unfold next_utf8_codepoint_defined
   simp only [rdU_cbuf s t i hi, bt_zero, hcp, hseq, hseqd, hL, hin0]
   repeat' split_ok
@@ -183,7 +183,7 @@ theorem src_tie_next_utf8_len1_def (s t : List UInt8) (i : Nat) (hi : i ≤ s.le
 theorem src_tie_next_utf8_len2_val (s t : List UInt8) (i : Nat) (hi : i ≤ s.length) (hL : Utf8.seqLen (bt s i 0) = 2)
     (hlong : ¬ s.length - i < 2) :
     next_utf8_codepoint (s ++ 0 :: t) i s.length = utfOut i (Utf8.next (s.drop i)) ∧ Utf8.next (s.drop i) ≠ .error .oob := by
-  obtain ⟨hi, hlen, h0, hseq, hseqd, hcp, hin0⟩ := setup s t i hi
+  obtain ⟨hi, hlen, h0, hseq, hseqd, hcp, hin0⟩ := src_tie_utf8_setup s t i hi
   have hb0 := bt_lt s i 0; have hb1 := bt_lt s i 1; have hb2 := bt_lt s i 2; have hb3 := bt_lt s i 3
   unfold Utf8.next
   simp (disch := omega) only [h0, hL, hlen, Nat.reduceEqDiff, if_false, hlong, rd_drop s i, if_true]
@@ -199,7 +199,7 @@ theorem src_tie_next_utf8_len2_val (s t : List UInt8) (i : Nat) (hi : i ≤ s.le
 theorem src_tie_next_utf8_len2_def (s t : List UInt8) (i : Nat) (hi : i ≤ s.length) (hL : Utf8.seqLen (bt s i 0) = 2)
     (hlong : ¬ s.length - i < 2) :
     next_utf8_codepoint_defined (s ++ 0 :: t) i s.length = true := by
-  obtain ⟨hi, hlen, h0, hseq, hseqd, hcp, hin0⟩ := setup s t i hi
+  obtain ⟨hi, hlen, h0, hseq, hseqd, hcp, hin0⟩ := src_tie_utf8_setup s t i hi
   unfold next_utf8_codepoint_defined
   simp only [rdU_cbuf s t i hi, bt_zero, hcp, hseq, hseqd, hL, hin0]
   repeat' split_ok
@@ -211,7 +211,7 @@ theorem src_tie_next_utf8_len2_def (s t : List UInt8) (i : Nat) (hi : i ≤ s.le
 theorem src_tie_next_utf8_len3_val (s t : List UInt8) (i : Nat) (hi : i ≤ s.length) (hL : Utf8.seqLen (bt s i 0) = 3)
     (hlong : ¬ s.length - i < 3) :
     next_utf8_codepoint (s ++ 0 :: t) i s.length = utfOut i (Utf8.next (s.drop i)) ∧ Utf8.next (s.drop i) ≠ .error .oob := by
-  obtain ⟨hi, hlen, h0, hseq, hseqd, hcp, hin0⟩ := setup s t i hi
+  obtain ⟨hi, hlen, h0, hseq, hseqd, hcp, hin0⟩ := src_tie_utf8_setup s t i hi
   have hb0 := bt_lt s i 0; have hb1 := bt_lt s i 1; have hb2 := bt_lt s i 2; have hb3 := bt_lt s i 3
   unfold Utf8.next
   simp (disch := omega) only [h0, hL, hlen, Nat.reduceEqDiff, if_false, hlong, rd_drop s i, if_true]
@@ -227,7 +227,7 @@ theorem src_tie_next_utf8_len3_val (s t : List UInt8) (i : Nat) (hi : i ≤ s.le
 theorem src_tie_next_utf8_len3_def (s t : List UInt8) (i : Nat) (hi : i ≤ s.length) (hL : Utf8.seqLen (bt s i 0) = 3)
     (hlong : ¬ s.length - i < 3) :
     next_utf8_codepoint_defined (s ++ 0 :: t) i s.length = true := by
-  obtain ⟨hi, hlen, h0, hseq, hseqd, hcp, hin0⟩ := setup s t i hi
+  obtain ⟨hi, hlen, h0, hseq, hseqd, hcp, hin0⟩ := src_tie_utf8_setup s t i hi
   unfold next_utf8_codepoint_defined
   simp only [rdU_cbuf s t i hi, bt_zero, hcp, hseq, hseqd, hL, hin0]
   repeat' split_ok
@@ -239,7 +239,7 @@ theorem src_tie_next_utf8_len3_def (s t : List UInt8) (i : Nat) (hi : i ≤ s.le
 theorem src_tie_next_utf8_len4_val (s t : List UInt8) (i : Nat) (hi : i ≤ s.length) (hL : Utf8.seqLen (bt s i 0) = 4)
     (hlong : ¬ s.length - i < 4) :
     next_utf8_codepoint (s ++ 0 :: t) i s.length = utfOut i (Utf8.next (s.drop i)) ∧ Utf8.next (s.drop i) ≠ .error .oob := by
-  obtain ⟨hi, hlen, h0, hseq, hseqd, hcp, hin0⟩ := setup s t i hi
+  obtain ⟨hi, hlen, h0, hseq, hseqd, hcp, hin0⟩ := src_tie_utf8_setup s t i hi
   have hb0 := bt_lt s i 0; have hb1 := bt_lt s i 1; have hb2 := bt_lt s i 2; have hb3 := bt_lt s i 3
   unfold Utf8.next
   simp (disch := omega) only [h0, hL, hlen, Nat.reduceEqDiff, if_false, hlong, rd_drop s i, if_true]
@@ -255,7 +255,7 @@ theorem src_tie_next_utf8_len4_val (s t : List UInt8) (i : Nat) (hi : i ≤ s.le
 theorem src_tie_next_utf8_len4_def (s t : List UInt8) (i : Nat) (hi : i ≤ s.length) (hL : Utf8.seqLen (bt s i 0) = 4)
     (hlong : ¬ s.length - i < 4) :
     next_utf8_codepoint_defined (s ++ 0 :: t) i s.length = true := by
-  obtain ⟨hi, hlen, h0, hseq, hseqd, hcp, hin0⟩ := setup s t i hi
+  obtain ⟨hi, hlen, h0, hseq, hseqd, hcp, hin0⟩ := src_tie_utf8_setup s t i hi
   unfold next_utf8_codepoint_defined
   simp only [rdU_cbuf s t i hi, bt_zero, hcp, hseq, hseqd, hL, hin0]
   repeat' split_ok
